@@ -288,7 +288,7 @@ impl LabWorker {
             Some(t) => match t.join() {
                 Ok(()) => Ok(true),
                 Err(_) => {
-                    let (loc, msg) = crate::engine::take_last_panic().unwrap_or(("?".into(), "?".into()));
+                    let (loc, msg) = crate::engine::take_last_panic().or_else(crate::engine::take_last_panic_any_thread).unwrap_or(("?".into(), "?".into()));
                     Err(format!("worker thread panicked at {loc}: {msg}"))
                 }
             },
